@@ -539,15 +539,17 @@ func (c *compiler) arrayOperator(l interface{}, r interface{}, op string) (inter
 	var err error
 	switch op {
 	case "+":
-		elemType := reflect.TypeOf(l).Elem()
-		if elemType.Kind() != reflect.Interface {
-			t := reflect.ValueOf(r).Type()
-			if elemType != t {
-				err = fmt.Errorf("cannot append '%v' (untyped %s constant) as %s value in assignment", r, t, elemType)
-			}
+		lv := reflect.ValueOf(l)
+		if lv.Kind() != reflect.Slice {
+			return nil, fmt.Errorf("cannot append to %T: not a slice", l)
+		}
+
+		elemType := lv.Type().Elem()
+		if t := reflect.ValueOf(r).Type(); !t.AssignableTo(elemType) {
+			err = fmt.Errorf("cannot append '%v' (untyped %s constant) as %s value in assignment", r, t, elemType)
 		}
 		if err == nil {
-			return reflect.Append(reflect.ValueOf(l), reflect.ValueOf(r)), nil
+			return reflect.Append(lv, reflect.ValueOf(r)), nil
 		}
 	default:
 		err = fmt.Errorf("unkown operator (%s) on %T and %T ", op, l, r)
